@@ -89,7 +89,7 @@ func RunRealChecker(l *Loaded, roots []string, sequential, sanity bool) (*Outcom
 	}
 	out := NewOutcome()
 	for _, act := range g.Roots {
-		path := act.Package.PkgPath
+		path := act.Package.ID
 		if _, ok := out.Diags[path]; !ok {
 			out.Diags[path] = nil
 		}
